@@ -282,6 +282,28 @@ def work_after_crash(chunk, st):
     st.sample({'after_crashed_target': [list(x) for x in chunk[:2]]}, cap=3)
 
 
+# ---- every peer of the shared zoo as the second target of a run, after a target that leaves marks in the rating state
+def work_zoo_after(chunk, st):
+    from props import zoo
+    for name, dirty, fmt in chunk:
+        e = zoo.get(name)
+        if e['ssh1'] and not e['versions_differ']:
+            continue
+        opts = ['-n', '--skip-rate-test'] + (['-j'] if fmt == 'json' else [])
+        res, outs = H.audit_sequence([MT.HEALTHY[dirty]('d'), e['make']()], opts=opts, hosts=['dirty.example', 'z.example'])
+        _r, alone = H.audit_sequence([e['make']()], opts=opts, hosts=['z.example'])
+        st.execution(res.world, outcome=('zoo-after', res.status, fmt), root=('zoo-after', name, dirty, fmt), nontrivial=('zoo-after', name, dirty, fmt))
+        if outs is None or alone is None or len(outs) != 2 or len(alone) != 1:
+            st.violation('zoo-after-dirty-target:output-shape', {'peer': name, 'after': dirty, 'fmt': fmt, 'stdout': res.stdout[-300:]})
+            continue
+        a, b = outs[1], alone[0]
+        if fmt == 'text':
+            a, b = MT.norm_block(a), MT.norm_block(b)
+        if a != b:
+            st.violation('result-differs:zoo-peer-after-%s:%s' % (dirty, fmt), {'peer': name, 'after': dirty, 'diff': _text_diff(a, b) if fmt == 'text' else _json_diff(a, b)})
+    st.sample({'zoo_after_dirty': [list(c) for c in chunk[:2]]}, cap=3)
+
+
 # ---- targets written in different notations in one list (explicit port next to none, with and without -p)
 def work_mixed_ports(chunk, st):
     for (a, pa), (b, pb), popt, fmt in chunk:
@@ -314,6 +336,9 @@ def run(tier, seed):
     mixed = [((a, pa), (b, pb), popt, fmt) for a, b in (('TERR', 'CLEAN'), ('CLEAN', 'RSA1024')) for pa in (None, 2222, 22) for pb in (None, 2222, 2022)
              for popt in (None, 2022) for fmt in ('text', 'json') if pa != pb]
     par.pmap(work_mixed_ports, mixed, stats=st, chunk=4)
+    from props import zoo
+    zn = zoo.names(tier)
+    par.pmap(work_zoo_after, [(n, d, f) for n in zn for d in ('TERR', 'RSA1024', 'GEX1024') for f in ('text', 'json')], stats=st, chunk=12)
     firsts = ['RSA1024', 'GEX1024', 'TERR', 'CERTSMALLCA']
     seconds = ['CLEAN', 'RSA4096', 'GEX4096', 'MARK', 'RSA1024'] if tier == 'quick' else ARCHS
     par.pmap(work_after_crash, [(a, b, f) for a in firsts for b in seconds if b != 'SSH1' for f in ('text', 'json')], stats=st, chunk=2)
@@ -331,7 +356,7 @@ def run(tier, seed):
              'rating state) as -T files x --threads x {text,-j,-P}; for each, DFS over gate schedules of connection events with a '
              'preemption bound (quick 1, fine-grained 2; thorough 2-3); plus line-level interleavings (every source line of get_db/thread_exit is a '
              'scheduling point) of 2-3 threads running the rating-table life cycle, preemption bound 2-3; a switch at any single receive for every ordered pair; '
-             'targets audited after one whose audit died of an environment error; non-trivial = distinct (targets, threads, completion order, '
+             'targets audited after one whose audit died of an environment error; every peer of props/zoo.py as second target after three mark-leaving targets; non-trivial = distinct (targets, threads, completion order, '
              'item-to-thread assignment)' % len(ARCHS),
         assumptions=['thread switches only at virtual I/O gates (resolve/connect/recv), see DESIGN 2.4b',
                      'reference = fresh single-target invocation in the same virtual environment'],
